@@ -541,3 +541,24 @@ def tree_from_json(v: object) -> object:
     if isinstance(v, list):
         return [tree_from_json(x) for x in v]
     return v
+
+
+def canonicalize(cd: ClassDesc, tree: dict) -> dict:
+    """Drop unknown tags and explicit defaults, recursively (pure tree rewrite)."""
+    out = {}
+    for f in cd.fields:
+        v = tree.get(f.name, ABSENT) if f.tag is not None else tree[f.name]
+        wrapped = False
+        if f.tag is not None:
+            if v is ABSENT:
+                out[f.name] = ABSENT
+                continue
+            v = v.value
+            wrapped = True
+        if f.kind == "struct" and v is not None:
+            v = [canonicalize(f.struct, i) for i in v] if f.array else canonicalize(f.struct, v)
+        if wrapped:
+            out[f.name] = ABSENT if py_equal(_field_to_py(f, v), default_value(f)) else Present(v)
+        else:
+            out[f.name] = v
+    return out
